@@ -216,6 +216,27 @@ def _is_param_lock(e, f, c, param):
     return bool(ar[1] & pv)
 
 
+def r_result_lock(e, R):
+    """Results from several workers share one pipe: SimpleQueue.put serialises
+    before taking the write lock and sends under it."""
+    put = e.prog.func("loky.backend.queues:SimpleQueue.put")
+    g = e.cfg(put)
+    dumps = [n for n in g.nodes for c in calls_in(n) if e.callees_of(c) & {"loky.backend.reduction:dumps"}]
+    sends = [n for n in g.nodes for c in calls_in(n) if isinstance(c.func, ast.Attribute) and c.func.attr == "send_bytes"]
+    withs = [n for n in g.nodes if n.kind == "with_enter" and norm(n.ast.context_expr).endswith("_wlock")]
+    R.check(bool(dumps) and bool(sends) and all(any(g.dominates(d, s_) for d in dumps) for s_ in sends) and
+            all(all(g.dominates(d, w_) for d in dumps) for w_ in withs), "R-PAIR", "SimpleQueue.put: serialises before taking the write lock", put.short,
+            "dumps before `with self._wlock`", "results are pickled while holding the result pipe's write lock (a failing/slow pickling blocks every worker)",
+            e.loc(put, put.node))
+    none_t = [t for t in g.nodes if t.kind == "test" and none_test(t.ast) and norm(none_test(t.ast)[0]).endswith("_wlock")]
+    locked = [s_ for s_ in sends if any(g.dominates(w_, s_) for w_ in withs)]
+    unlocked = [s_ for s_ in sends if s_ not in locked]
+    ok = bool(locked) and all(any(g.on_branch(u, t, "F" if none_test(t.ast)[1] == "T" else "T") for t in none_t) for u in unlocked)
+    R.check(ok, "R-PAIR", "SimpleQueue.put: sends under the write lock (unlocked only when there is no lock: win32 message pipes)", put.short,
+            "with self._wlock: self._writer.send_bytes(obj)", "results are written to the shared pipe without the write lock: messages of two workers "
+            "interleave and the manager fails to un-serialise (pool flagged broken by a healthy task)", e.loc(put, put.node))
+
+
 def r_feeder_hook(e, R):
     """The executor's feeder-error hook fails only its own future."""
     a = e.anchors
